@@ -50,6 +50,8 @@ PROPS["C13"] = {
         H("k13_5_nat_roundtrip_u16range", timeout=1500, mem_gb=12, unwind=5, unwindset=nat_rules(6, 17)),
         H("k13_5_nat_u16_result", timeout=1500, mem_gb=12, unwind=5, unwindset=nat_rules(6, 18)),
         H("k13_5_nat_usize_result", timeout=1500, mem_gb=12, unwind=5, unwindset=nat_rules(6, 17)),
+        # thorough-only harnesses, in the order in which they are started (the one known to finish first)
+        H("k13_6_canon_k5_wide", tiers=("thorough",), timeout=7200, mem_gb=40, core=False, unwind=5, unwindset=nat_rules(8, 66)),
         H("k13_5_nat_roundtrip_u32range", tiers=("thorough",), timeout=7200, mem_gb=40, core=False, unwind=5,
           unwindset=nat_rules(7, 33)),
         H("k13_5_nat_too_large_rejected", tiers=("thorough",), timeout=7200, mem_gb=40, core=False, unwind=5,
@@ -60,7 +62,6 @@ PROPS["C13"] = {
         H("k13_6_canon_k3", timeout=1500, mem_gb=12, unwind=5, unwindset=nat_rules(6, 17)),
         H("k13_6_canon_k4", tiers=("thorough",), timeout=7200, mem_gb=40, core=False, unwind=5, unwindset=nat_rules(7, 33)),
         H("k13_6_canon_k5", tiers=("thorough",), timeout=7200, mem_gb=40, core=False, unwind=5, unwindset=nat_rules(8, 33)),
-        H("k13_6_canon_k5_wide", tiers=("thorough",), timeout=7200, mem_gb=40, core=False, unwind=5, unwindset=nat_rules(8, 66)),
         H("k13_6_canon_k6", tiers=("thorough",), timeout=7200, mem_gb=40, core=False, unwind=5,
           unwindset=nat_rules(9, 33)),
     ],
@@ -246,7 +247,7 @@ PROPS["C01"] = {
 PROPS["C02"] = {
     "filters": ["k02_"],
     "functions": ["bit_encoding::decode::decode_node (private, via verif-hooks)", "BitIter::{read_bit, read_u2, read_u8, read_cmr, read_fail_entropy, next}"],
-    "bounds": "one harness per node class (leading code bits concrete, everything after them symbolic, symbolic length, arbitrary usize position): quick = classes without back references (iden/unit, fail with its 64 entropy bytes, witness, hidden with its CMR, jets); thorough adds the classes with back references with the real read_natural on arbitrary bits (unary, disconnect1, binary, word): the node decoder never panics or overflows (index - natural, n - 1, word size) and only returns child references strictly below its position",
+    "bounds": "one harness per node class (leading code bits concrete, everything after them symbolic, symbolic length, arbitrary usize position): quick = classes without back references (iden/unit, fail with its 64 entropy bytes, witness, hidden with its CMR, jets); quick also has the one-reference classes (unary, disconnect1, word) with the real read_natural and reference prefixes of at most two ones (references < 16) and word length fields 32..63; thorough widens the prefixes to three ones (references < 2^16, 5-byte strings): the node decoder never panics or overflows (index - natural, n - 1, word size) and only returns child references strictly below its position",
     "outside": "whole-program decoding and the canonicity rules that need several nodes (sharing, hidden-node repetition, canonical order, padding/trailing bytes at program level): Arc/Vec/HashSet/type-inference structures are out of CBMC's reach (measured); BitIter::close is covered under C13; word bodies (Word::from_bits modelled); allocation bounds",
     "assumptions": [
         "Word::from_bits is replaced by a model (ends the stream or returns a word; asserts n <= 31)",
@@ -264,11 +265,11 @@ PROPS["C02"] = {
                     unwindset=[BITITER_NEXT_REC, (r"BitIter::<.*>::read_(cmr|fail_entropy)$", "*", 66), (r"^(c01|hcons)::", "*", 72),
                                (r"::read_natural::<", ("rank", 0), 6), (r"::read_natural::<", ("rank", 1), 6),
                                (r"::read_natural::<", ("rank", 2), 7)])]
-               + [H("k02_total_%s" % k, tiers=("thorough",), timeout=5400, mem_gb=24, core=False, unwind=5,
+               + [H("k02_total_%s_k3" % k, tiers=("thorough",), timeout=5400, mem_gb=24, core=False, unwind=5,
                     unwindset=[BITITER_NEXT_REC, (r"BitIter::<.*>::read_(cmr|fail_entropy)$", "*", 66), (r"^(c01|hcons)::", "*", 72),
-                               (r"::read_natural::<", ("rank", 0), 8), (r"::read_natural::<", ("rank", 1), 8),
-                               (r"::read_natural::<", ("rank", 2), 33)])
-                  for k in ("unary", "disconnect1", "binary", "word")],
+                               (r"::read_natural::<", ("rank", 0), 6), (r"::read_natural::<", ("rank", 1), 6),
+                               (r"::read_natural::<", ("rank", 2), 18)])
+                  for k in ("unary", "disconnect1", "word")],
 }
 
 PROPS["C07"] = {
